@@ -488,6 +488,9 @@ class CSSParser:
         if not op:
             # Attribute name
             pattern = None
+        elif op[0] in '^$*' and not value:
+            # `^=`, `$=` and `*=` match nothing when the value is empty
+            pattern = re.compile(r'[^\s\S]', flags)
         elif op.startswith('^'):
             # Value start with
             pattern = re.compile(r'^%s.*' % re.escape(value), flags)
